@@ -1,6 +1,7 @@
 package main
 
 import (
+	"sync"
 	"fmt"
 	"go/constant"
 	"go/token"
@@ -73,12 +74,12 @@ func funcName(f *ssa.Function) string {
 	}
 	// a function standing in for a renamed anchor answers to the anchor's name (fold.go); closures
 	// inside it follow (their names are derived from the parent's)
-	if old, ok := standInName[f]; ok {
+	if old, ok := standInLookup(f); ok {
 		return old
 	}
 	if p := f.Parent(); p != nil {
 		for top := p; top != nil; top = top.Parent() {
-			if old, ok := standInName[top]; ok {
+			if old, ok := standInLookup(top); ok {
 				return strings.Replace(f.String(), top.String(), old, 1)
 			}
 		}
@@ -86,7 +87,17 @@ func funcName(f *ssa.Function) string {
 	return f.String()
 }
 
-var standInName = map[*ssa.Function]string{}
+// standInName: function standing in for a renamed anchor → the anchor's name. Written while a module
+// is loaded, read by rules that may run on another goroutine (thorough-tier replays).
+var standInName sync.Map
+
+func standInLookup(f *ssa.Function) (string, bool) {
+	v, ok := standInName.Load(f)
+	if !ok {
+		return "", false
+	}
+	return v.(string), true
+}
 
 // callInstr returns the CallCommon if the instruction is a call/go/defer.
 func callCommon(in ssa.Instruction) *ssa.CallCommon {
@@ -775,7 +786,7 @@ func shortName(fn *ssa.Function) string {
 	if fn == nil {
 		return ""
 	}
-	if old, ok := standInName[fn]; ok {
+	if old, ok := standInLookup(fn); ok {
 		if i := strings.LastIndex(old, "."); i >= 0 {
 			return old[i+1:]
 		}
